@@ -70,7 +70,10 @@ impl AIDGenerator {
         let (next_alloc, mut action_ids) = generate_aids(0);
 
         // Randomize the order of ids
+        #[cfg(not(kani))]
         action_ids.shuffle(&mut rand::thread_rng());
+        #[cfg(kani)]
+        crate::verif::permute(&mut action_ids);
 
         AIDGenerator {
             next_alloc,
@@ -92,7 +95,10 @@ impl AIDGenerator {
             let (next_alloc, mut action_ids) = generate_aids(self.next_alloc);
 
             // Randomize the order of ids
+            #[cfg(not(kani))]
             action_ids.shuffle(&mut rand::thread_rng());
+            #[cfg(kani)]
+            crate::verif::permute(&mut action_ids);
 
             self.next_alloc = next_alloc;
             self.action_ids = action_ids;
@@ -159,7 +165,10 @@ impl MIDGenerator {
             let (next_alloc, mut message_ids) = generate_mids(self.next_alloc);
 
             // Randomize the order of ids
+            #[cfg(not(kani))]
             message_ids.shuffle(&mut rand::thread_rng());
+            #[cfg(kani)]
+            crate::verif::permute(&mut message_ids);
 
             self.next_alloc = next_alloc;
             self.message_ids = message_ids;
@@ -421,4 +430,11 @@ mod tests {
 
         assert!(transaction_ids.is_empty());
     }
+}
+
+// Verification harnesses (compiled only by `cargo kani`; inert otherwise).
+#[cfg(kani)]
+#[allow(dead_code, unused_imports)]
+mod verif {
+    include!(concat!(env!("BTDHT_VERIF"), "/harness/transaction.rs"));
 }
